@@ -41,32 +41,36 @@ Proof. intros H. unfold backoff. tok. Qed.
 Lemma fail_other_ok s : TraceOk s -> TraceOk (fail_other s).
 Proof. intros H. unfold fail_other. apply backoff_ok, drop_transport_ok, H. Qed.
 
+Lemma verify_done_ok cont fhc h c r s :
+  (forall s', TraceOk s' -> TraceOk (cont s')) -> TraceOk s -> TraceOk (verify_done cont fhc h c r s).
+Proof.
+  intros Hc H. unfold verify_done. destruct r as [[k delta]|]; [|now apply fail_other_ok].
+  destruct (vclass_of k).
+  - ss. destruct (subs s && supsub s && negb (delta =? 0)%N).
+    + tok.
+    + apply finish_ok. tok.
+  - match goal with |- TraceOk (if ?c then _ else _) => destruct c end.
+    + apply Hc. assert (X : forall s0, TraceOk s0 -> TraceOk (set_imm (S (imm s0)) s0)) by (intros; tok).
+      apply X. apply drop_transport_ok. tok.
+    + apply backoff_ok, drop_transport_ok. tok.
+  - apply finish_ok, drop_transport_ok. exact H.
+  - now apply fail_other_ok.
+Qed.
+
 Lemma after_connect_ok cont fhc h s :
   (forall s', TraceOk s' -> TraceOk (cont s')) -> TraceOk s -> TraceOk (after_connect cont fhc h s).
 Proof.
-  intros Hc H. unfold after_connect, pop_verif. ss.
-  assert (H1 : forall vs, TraceOk (set_verifs vs (emit (EvOpened (nextcid s) h)
-                 (set_cur (Some (nextcid s)) (set_opn (opn s ++ [nextcid s]) (set_nextcid (S (nextcid s)) s)))))).
-  { intros vs. tok. constructor; [exact I|exact H]. }
-  destruct (verifs s) as [|[k delta] vr].
-  - ss. cbn [vclass_of]. ss.
-    destruct (subs s && supsub s && negb (0 =? 0)%N).
-    + tok. constructor; [exact I|]. constructor; [exact I|exact H].
-    + apply finish_ok. tok. constructor; [exact I|]. constructor; [exact I|exact H].
-  - ss. specialize (H1 vr).
-    assert (H2 : TraceOk (emit (EvVerify (nextcid s) k) (set_verifs vr (emit (EvOpened (nextcid s) h)
-                 (set_cur (Some (nextcid s)) (set_opn (opn s ++ [nextcid s]) (set_nextcid (S (nextcid s)) s))))))).
-    { apply emit_ok; [exact I|exact H1]. }
-    destruct (vclass_of k).
-    + ss. destruct (subs s && supsub s && negb (delta =? 0)%N).
-      * tok.
-      * apply finish_ok. tok.
-    + match goal with |- TraceOk (if ?c then _ else _) => destruct c end.
-      * apply Hc. assert (X : forall s0, TraceOk s0 -> TraceOk (set_imm (S (imm s0)) s0)) by (intros; tok).
-        apply X. apply drop_transport_ok. tok.
-      * apply backoff_ok, drop_transport_ok. tok.
-    + apply finish_ok, drop_transport_ok. exact H2.
-    + apply fail_other_ok. exact H2.
+  intros Hc H. unfold after_connect.
+  set (s0 := emit (EvOpened (nextcid s) h)
+               (set_cur (Some (nextcid s)) (set_opn (opn s ++ [nextcid s]) (set_nextcid (S (nextcid s)) s)))).
+  assert (H0 : TraceOk s0) by (unfold s0; tok; constructor; [exact I|exact H]).
+  assert (H1 : TraceOk (snd (pop_verif s0))).
+  { unfold pop_verif. destruct (verifs s0); [exact H0|]. cbn [snd]. tok. }
+  destruct (pop_verif s0) as [[[k delta] vd] s1]. cbn [snd] in H1.
+  assert (H2 : TraceOk (emit (EvVerify (nextcid s) k) s1)) by (apply emit_ok; [exact I|exact H1]).
+  destruct (vd =? 0)%N; [now apply verify_done_ok|].
+  destruct (vd <? THIRTY_S)%N; [tok|].
+  destruct (vd =? THIRTY_S)%N; tok.
 Qed.
 
 Lemma rounds_ok cont fhc : forall cands s,
@@ -127,6 +131,7 @@ Proof.
   destruct (ph s).
   - destruct (closing s); [exact H0|]. now apply start_connector_ok.
   - exact H0.
+  - now apply backoff_ok.
   - assert (H1 : TraceOk (set_supsub false (set_cur None (emit (EvClosed c) (set_opn (remove_nat c (opn s)) s))))) by tok.
     destruct r; [now apply backoff_ok|].
     pose proof (finish_ok PDoneOk _ H1) as H2.
@@ -164,6 +169,7 @@ Proof.
   - apply emit_ok; [exact I|]. tok.
   - ss. destruct (ph s); try exact H1.
     + apply rounds_ok; [intros; now apply attempt_loop_ok|exact H1].
+    + apply verify_done_ok; [intros; now apply attempt_loop_ok|exact H1].
     + now apply finish_ok.
     + now apply attempt_ok.
 Qed.
